@@ -318,6 +318,9 @@ def nat_script(c, B, s):
             s.raw(p)
     if c["uid"]:
         s.raw("uid %d %d %d" % (c["uid"], c["uid"], c["uid"]))
+    # several calls in a row: sinks with a bounded queue (listen backlog, datagram queue) only bite after a few messages
+    for k in range(7):
+        s.call(c["id"] + 1000 * (k + 1), "execve", b"/bin/nat", [b"nat", b"warm%d" % k], [b"E=1"], -1, 13)
     s.call(c["id"], "execve", b"/bin/nat", [b"nat", b"x"], [b"E=1"], -1, 13)
     s.endfork()
 
